@@ -1,5 +1,5 @@
 import Moyo.Model.StageSearchPrim
--- import Moyo.Model.StageSearchBravais
+import Moyo.Model.StageSearchBravais
 /-
 Driver commands of the stage models S1, S2, S3 (harness/src/s13.rs, stages.rs):
 
@@ -15,7 +15,8 @@ Driver commands of the stage models S1, S2, S3 (harness/src/s13.rs, stages.rs):
 `frag 1`: some comparison of a computed length with a threshold was within the float uncertainty (the case
 is then not compared); `enum 1`: the proposals are a subsequence of the model's own enumeration
 (pivot destinations x Bravais rotations, rough translations equal to 1e-9); `accm 1`: the implementation's
-accept/reject flags equal the model's on every non-fragile candidate.
+accept/reject flags equal the model's on every non-fragile candidate; `bravm 1` (S3): the recorded Bravais list equals
+the answer of the S2 model for the same lattice (dataflow S2 -> S3).
 -/
 namespace Moyo.DriverS13
 open Moyo Moyo.Wire Moyo.Search
@@ -128,10 +129,18 @@ def cmdS3 (ts : List String) : String :=
     let rough ← q3s? (← parseRats? ((seg? segs "crough").getD []))
     let perms ← parsePerms? k ((seg? segs "cperms").getD [])
     let cacc ← parseNats? ((seg? segs "cacc").getD [])
+    let ang ← parseAngtol? ((seg? segs "angtol").getD ["default"])
     if perms.length ≠ rough.size ∨ rots.length ≠ perms.length then none else
-    pure (c, s, brav, ((rots.zip rough.toList).zip perms).map fun ((r, t), p) => (⟨r, t, p⟩ : Cand), cacc)) with
+    pure (c, s, brav, ((rots.zip rough.toList).zip perms).map fun ((r, t), p) => (⟨r, t, p⟩ : Cand), cacc, ang)) with
   | none => "bad-case"
-  | some (c, s, brav, cands, cacc) =>
+  | some (c, s, brav, cands, cacc, ang) =>
+    -- dataflow S2 -> S3: the recorded Bravais list is what the S2 model computes for this lattice (unless fragile)
+    let s2 := Moyo.SearchBravais.searchBravais c.lat s ang
+    let bravOk : Bool := s2.frag || (match s2.res, brav with
+      | .ok g, some b => g == b
+      | .ok _, none => guardTooLarge (c.lat.col 0).normSq s   -- the guard returned before the Bravais search
+      | _, some _ => false
+      | _, none => true)
     let res := searchModel c s brav cands
     let scale := c.lat.maxAbs
     let fg := closeTo (c.lat.col 0).normSq (4 * s) scale
@@ -155,7 +164,7 @@ def cmdS3 (ts : List String) : String :=
         let all := bs.flatMap fun R => piv.map fun dst => (R, roughTranslation c R src dst)
         isSubseq (fun (cd : Cand) (e : M3 × Q3) => cd.rot == e.1 && q3Close cd.rough e.2) cands all
       | _, _ => cands.isEmpty
-    let tail := s!"hc {b01 (decide accRots.Nodup)} ; nacc {accRots.length} ; frag {b01 frag} ; enum {b01 enumOk} ; accm {b01 (flagsAgree per cacc)}"
+    let tail := s!"hc {b01 (decide accRots.Nodup)} ; nacc {accRots.length} ; frag {b01 frag} ; enum {b01 enumOk} ; accm {b01 (flagsAgree per cacc)} ; bravm {b01 bravOk}"
     match res with
     | .error e => s!"err {e.name} ; {tail}"
     | .ok ops =>
@@ -165,7 +174,7 @@ def step? (line : String) : Option String :=
   match tokens line with
   | "s1" :: _tag :: rest => some (cmdS1 rest)
   | "s3" :: _tag :: rest => some (cmdS3 rest)
-  -- | "s2" :: _tag :: rest => some (Moyo.SearchBravais.cmdS2 rest)
+  | "s2" :: _tag :: rest => some (Moyo.SearchBravais.cmdS2 rest)
   | _ => none
 
 end Moyo.DriverS13
